@@ -222,7 +222,9 @@ def c03(res):
     res.models.append(model_check("Interval", "Interval_quick.cfg" if q else "Interval_thorough.cfg", wd, workers=8, timeout=3000))
     progs = gen_programs(res, wd)
     trace = os.path.join(wd, "trace.ndjson")
-    if not run_recorder(res, "c03", [progs, res.tier, trace], wd):
+    classes = os.path.join(wd, "classes.out")
+    res.gens.append(generate("IntervalClasses", "IntervalClasses.cfg", wd, classes, workers=1))
+    if not run_recorder(res, "c03", [progs, res.tier, trace, classes], wd):
         return res.finish("recorder crashed")
     n, rej = validate("Trace_C03", trace, wd, timeout=3000)
     res.validated = n - len(rej)
